@@ -76,31 +76,32 @@ func c16SkOps(c *Ctx, r *Rng, k *c16Key) {
 		}
 		res := safely(func() string {
 			pt, nc, sn, si := k.ptOf(m), k.nonceOf(rr), k.nonceOf(s), c16Int(sc)
-			ct, err := k.sk.EncryptWithNonce(pt, nc)
+			sk := k.ops("sk")
+			ct, err := sk.EncryptWithNonce(pt, nc)
 			if err != nil {
 				return c16Err(err)
 			}
-			noise, err := k.sk.IdentityNoise(nc)
+			noise, err := sk.IdentityNoise(nc)
 			if err != nil {
 				return c16Err(err)
 			}
-			scal, err := k.sk.CiphertextScalarOp(ct, si)
+			scal, err := sk.CiphertextScalarOp(ct, si)
 			if err != nil {
 				return c16Err(err)
 			}
-			inv, err := k.sk.CiphertextOpInv(ct)
+			inv, err := sk.CiphertextOpInv(ct)
 			if err != nil {
 				return c16Err(err)
 			}
-			rer, err := k.sk.ReRandomise(ct, sn)
+			rer, err := sk.ReRandomise(ct, sn)
 			if err != nil {
 				return c16Err(err)
 			}
-			nsc, err := k.sk.NonceScalarOp(nc, si)
+			nsc, err := sk.NonceScalarOp(nc, si)
 			if err != nil {
 				return c16Err(err)
 			}
-			nop, err := k.sk.NonceOp(nc, sn)
+			nop, err := sk.NonceOp(nc, sn)
 			if err != nil {
 				return c16Err(err)
 			}
